@@ -298,7 +298,7 @@ var kindNames = []string{"method", "event", "error"}
 var sawNestedAtOdds bool
 
 // addBack runs one FFI -> ABI conversion and records it.  nestedTypeMut marks inputs produced by
-// retyping the JSON type of a nested member (the known finding C20/nested-json-type-unchecked).
+// retyping the JSON type of a nested member (statistics only).
 func (h *H) addBack(kind int, name string, params, returns []pdesc, origin string, nestedTypeMut bool) (*abi.Entry, int) {
 	e, err, pan := safeBack(kind, name, params, returns)
 	cls := 0
@@ -347,10 +347,10 @@ func (h *H) addBack(kind int, name string, params, returns []pdesc, origin strin
 		h.st.Hit("back:verdict=accept,unmarshal=ok")
 	}
 	key := ""
-	if sawNestedAtOdds && cls == 0 {
-		key = "C20/nested-json-type-unchecked"
+	if sawNestedAtOdds {
+		h.st.Hit(fmt.Sprintf("back:nested-member-json-type-at-odds:class=%d", cls))
 	}
-	_ = nestedTypeMut
+	_ = nestedTypeMut // (the former known finding C20/nested-json-type-unchecked is repaired: 509d77b)
 	term := fmt.Sprintf("CBack %d %s %s %s %d %s %s %s %s", kind, cb(name), clist(pins), clist(rins), cls, cb(sig), ins, outs, cb(helper))
 	dk := fmt.Sprintf("b|%d|%s|%v|%v", kind, name, params, returns)
 	if !h.seen[dk] {
@@ -1019,7 +1019,8 @@ func main() {
 	if *replay != "" {
 		raw, err := os.ReadFile(*replay)
 		if err != nil {
-			panic(err)
+			fmt.Fprintln(os.Stderr, "replay:", err)
+			os.Exit(2)
 		}
 		var rp struct {
 			Case json.RawMessage `json:"case"`
@@ -1092,7 +1093,9 @@ func main() {
 		{"x", `{"type":"object","details":{"type":"tuple"},"properties":{"a":{"type":"string","details":{"type":"string","index":1e400}}}}`},   // D20g
 		{"a#b", `{"type":"string","details":{"type":"string"}}`},                                                                                   // D20h
 		{"%zz", `{"type":"string","details":{"type":"string"}}`},                                                                                   // D20h
-		{"x", `{"type":"object","details":{"type":"tuple"},"properties":{"a":{"type":"boolean","details":{"type":"uint256","index":0}}}}`},      // known: nested JSON type
+		{"x", `{"type":"object","details":{"type":"tuple"},"properties":{"a":{"type":"boolean","details":{"type":"uint256","index":0}}}}`},      // D20i: nested JSON type at odds
+		{"x", `{"type":"array","details":{"type":"tuple[][]"},"items":{"type":"array","items":{"type":"object","properties":{"a":{"type":"object","details":{"type":"string","index":0}}}}}}`}, // D20i under array levels
+		{"x", `{"type":"object","details":{"type":"tuple"},"properties":{"a":{"type":"string","details":{"type":"tuple","index":0}}}}`},          // D20i: string against a nested tuple
 		{"x", `{"oneOf":[{"type":"string"},{"type":"integer"}],"details":{"type":"uint256"}}`},
 		{"x", `{"oneOf":[{"type":"string"},{"type":"integer"}],"details":{"type":"bool"}}`},
 		{"x", `{"oneOf":[{"type":"string"},{"type":"string"}],"details":{"type":"string"}}`},
